@@ -285,16 +285,24 @@ static ssize_t write_common(int fd, const void *buf, size_t n, int positional, o
     long partial;
     if (fault(F_WRITE, &e, &partial)) {
         size_t p = partial < 0 ? 0 : (size_t)partial;
-        if (p > n) p = n;
-        ssize_t done = 0;
+        if (p >= n) p = n > 0 ? n - 1 : 0;
         if (p > 0) {
-            done = positional ? real_pwrite64(fd, buf, p, pos) : real_write(fd, buf, p);
+            // POSIX: a write that transferred some bytes returns that count; the error is
+            // reported by the NEXT call.  So: short write now, errno on the following write.
+            ssize_t done = positional ? real_pwrite64(fd, buf, p, pos) : real_write(fd, buf, p);
             if (done > 0) {
                 off64_t end = positional ? pos + done : lseek64(fd, 0, SEEK_CUR);
                 rec(K_WRITE, path, buf, (size_t)done, (int64_t)(end - done), 1);
             }
+            if (e == 0) {
+                T.armed = 0;  // pure short write: nothing else to inject
+            } else {
+                T.partial = 0;
+                T.nth = T.seen + 1;  // the following matching call fails with errno
+            }
+            return done;
         }
-        if (e == 0) return done;  // short write, no error
+        if (e == 0) return 0 < n ? (positional ? real_pwrite64(fd, buf, n, pos) : real_write(fd, buf, n)) : 0;
         errno = e;
         return -1;
     }
